@@ -27,6 +27,10 @@ BUDGET_S = {'quick': 300, 'thorough': 2400}
 ASSUMPTIONS = [
     'derived attribute bodies use the dialect of the repository tests ("self.<attr> = <expr>;")',
     'constants are read by their bare name (the form mk_component registers); enumerators as <Enum>::<name>',
+    'operands of a binary operation are evaluated left to right (an attribute read to the left of a call that writes the attribute '
+    'delivers the value before the call)',
+    'two-component family: the entries are run on a component while a component of another model, built after it, is alive; '
+    'callables, external entities, enumerations, constants and created instances must be those of the component they are used on',
     'programs the reference rejects (diverging recursion within depth/fuel, ill-typed) are skipped and counted',
     'histories: a read of a derived attribute whose body is erroneous on the current data (attribute access through an empty '
     'selection, division by zero in a nested call) has no defined outcome -- it is performed and whatever it delivers or raises is '
@@ -93,6 +97,9 @@ BODIES = {
         ('O6', [('selfrom', 'any', 'o', 'A', B('==', ('field', ('selected',), 'N'), B('+', SF('N'), I(1))), True),
                 IF(('un', 'not_empty', V('o')), [ASG(V('r'), ('icall', V('o'), 'op', [('k', I(5))]))]),
                 ASG(SF('N'), B('+', SF('N'), P('k')))]),     # executes no return after a nested call that returned a value
+        # an attribute read to the LEFT of a call that writes that attribute (operands are evaluated left to right)
+        ('O7', [IF(B('<=', P('k'), I(0)), [RET(SF('N'))]), ASG(SF('N'), B('+', SF('N'), I(1))),
+                RET(B('+', SF('N'), B('*', ('icall', SELF, 'op', [('k', B('-', P('k'), I(1)))]), I(100))))]),
     ],
     'cop': [  # A.cop(k: integer), class based
         ('C1', [RET(B('*', P('k'), I(2)))]),
@@ -351,6 +358,10 @@ def entries():
         ('oal:nested calls', [RET(F_('f', n=F_('g', n=F_('f', n=I(1)), m=I(0))))]),
         ('oal:operation', [('selfrom', 'any', 'a', 'A', None, True), ASG(V('x'), I(9)),
                            ASG(V('r'), ('icall', V('a'), 'op', [('k', I(1))])), RET(B('+', B('*', V('x'), I(1000)), V('r')))]),
+        ('oal:attribute read left of a call writing it', [('selfrom', 'any', 'a', 'A', None, True),
+                                                           RET(B('+', ('field', V('a'), 'N'), B('*', ('icall', V('a'), 'op', [('k', I(1))]), I(1000))))]),
+        ('oal:derived read left of a call writing its source', [('selfrom', 'any', 'a', 'A', None, True),
+                                                                 RET(B('-', ('field', V('a'), 'D'), B('*', ('icall', V('a'), 'op', [('k', I(2))]), I(1000))))]),
         ('oal:class operation', [ASG(V('k'), I(4)), RET(B('+', ('ncall', 'A', 'cop', [('k', I(3))]), V('k')))]),
         ('oal:bridge', [ASG(V('p'), I(50)), RET(B('+', ('ncall', 'EE', 'b', [('p', I(2))]), V('p')))]),
         ('oal:derived', [('selfrom', 'any', 'a', 'A', None, True), ASG(V('d1'), ('field', V('a'), 'D')),
@@ -443,7 +454,7 @@ def _lit(v):
     return I(v)
 
 
-def run_real(bp_model, system, entry):
+def run_real(bp_model, system, entry, other_bp=None):
     import xtuml
     from bridgepoint import ooaofooa
     name, pop, kind, payload = entry
@@ -454,6 +465,11 @@ def run_real(bp_model, system, entry):
     for n in pop:
         dom.new('A', N=n)
     insts = list(dom.select_many('A'))
+    dom2 = None
+    if other_bp is not None:
+        # a second component, of another model, built after the first and alive while the first is used
+        dom2 = ooaofooa.mk_component(other_bp)
+        dom2.new('A', N=99)
     with core.time_limit(10.0):
         if kind == 'pyfunc':
             value = dom.find_symbol(payload[0])(**payload[1])
@@ -489,6 +505,10 @@ def run_real(bp_model, system, entry):
         elif kind == 'oal':
             value = dom.find_symbol('main')()
     pop_after = [[i.N, i.Name] for i in dom.select_many('A')]
+    if dom2 is not None:
+        other_pop = [i.N for i in dom2.select_many('A')]
+        if other_pop != [99]:
+            pop_after.append(['<population of the second component changed>', other_pop])
     return value, pop_after
 
 
@@ -498,7 +518,7 @@ def norm_value(v):
     return norm(v)
 
 
-def compare_entry(ctx, system, entry, bp_model, family, extra=None):
+def compare_entry(ctx, system, entry, bp_model, family, extra=None, other_bp=None):
     name = entry[0]
     case = dict(system=system, entry=name, family=family)
     case.update(extra or {})
@@ -510,7 +530,7 @@ def compare_entry(ctx, system, entry, bp_model, family, extra=None):
     ctx.count('calls')
     label = ','.join('%s=%s' % (s, BODIES[s][system[s]][0]) for s in SLOTS)
     try:
-        got_value, got_pop = run_real(bp_model, system, entry)
+        got_value, got_pop = run_real(bp_model, system, entry, other_bp)
     except core.Timeout:
         ctx.violation('c15:hang', case, '%s with %s does not return within 10 s' % (name, label), None, 'timeout')
         return 'bad'
@@ -545,6 +565,30 @@ def system_task(ctx, task):
             st = compare_entry(ctx, system, e, bp, 'api')
             if st == 'ok':
                 ctx.distinct('nontrivial', (repr(sorted(system.items())), e[0]))
+
+
+def two_component_task(ctx, task):
+    '''The entries on a component of system s1 while a component of system s2 (built later) is alive.'''
+    tier, pairs = task
+    es = [e for e in entries() if e[2] in ('pyfunc', 'pycop', 'pybridge', 'pyop', 'pysymbols', 'pysamename', 'oal')]
+    for s1, s2 in pairs:
+        bp1, bp2 = build_bp_model(s1), build_bp_model(s2)
+        ctx.count('component_pairs')
+        for e in es:
+            st = compare_entry(ctx, s1, e, bp1, 'two-components', extra=dict(other_system=s2), other_bp=bp2)
+            if st == 'ok':
+                ctx.count('two_component_calls')
+
+
+def component_pairs(tier):
+    base = dict((s, 0) for s in SLOTS)
+    devs = []
+    for s in SLOTS:
+        for i in range(1, N_PRODUCT.get(s, len(BODIES[s]))):
+            devs.append(dict(base, **{s: i}))
+    if tier == 'quick':
+        devs = [d for d in devs if any(d[s] == 1 for s in SLOTS)] + [dict(base, f=2, g=2, h=1, op=2, cop=2, D=1, b=2)]
+    return [(base, d) for d in devs] + [(d, base) for d in devs]
 
 
 # ---- histories: reads of the derived attribute interleaved with edits through the python API ------------------
@@ -751,6 +795,9 @@ def run(ctx):
     k = ctx.seed % 5
     sysl = sysl[k:] + sysl[:k]
     ctx.pmap(system_task, [(ctx.tier, sysl[i:i + 4]) for i in range(0, len(sysl), 4)])
+    cps = component_pairs(ctx.tier)
+    ctx.pmap(two_component_task, [(ctx.tier, cps[i:i + 2]) for i in range(0, len(cps), 2)])
+    ctx.require(ctx.n('two_component_calls') >= 200, 'too few calls with a second component alive (%d)' % ctx.n('two_component_calls'))
     base = dict((s, 0) for s in SLOTS)
     ro_systems = [base, dict(base, f=2, op=2, D=1)] if ctx.quick else [base, dict(base, f=2, op=2, D=1), dict(base, f=7, h=1, cop=1, b=2)]
     ctx.pmap(roworder_task, [(ctx.tier, s, t) for s in ro_systems for t in PERM_TABLES])
@@ -777,7 +824,10 @@ def replay(ctx, case):
         compare_history(ctx, system, case['history'], build_bp_model(system))
         return
     entry = [e for e in entries() if e[0] == case['entry']][0]
-    if case.get('family', 'api') == 'api':
+    if case.get('family') == 'two-components':
+        compare_entry(ctx, system, entry, build_bp_model(system), 'two-components', extra=dict(other_system=case['other_system']),
+                      other_bp=build_bp_model(case['other_system']))
+    elif case.get('family', 'api') == 'api':
         compare_entry(ctx, system, entry, build_bp_model(system), 'api')
     else:
         import xtuml
